@@ -6,7 +6,7 @@ set -u
 cd /verif
 export GOFLAGS=-mod=mod GOPROXY=off GOSUMDB=off GOTOOLCHAIN=local
 out=/verif/seeded/RESULTS.tsv
-[ $# -gt 0 ] && seeds="$@" || seeds=$(ls /verif/seeded | grep -v RESULTS)
+if [ $# -gt 0 ]; then seeds="$@"; else seeds=$(ls /verif/seeded | grep -v RESULTS); : > $out; fi
 git -C /repo diff --quiet || { echo "/repo has uncommitted changes"; exit 2; }
 for s in $seeds; do
   d=/verif/seeded/$s
